@@ -41,9 +41,17 @@ def stepLine (dom : String) (st : DState) (full : String) : DState × String :=
     | "pool" | "pool01" | "pool02" | "pool03" =>
       let (ps, m, s, t) := GoRes.Driver.Pool.run dom st.pool args
       ({ st with pool := ps }, m ++ "\t" ++ s ++ "\t" ++ t)
-    | "idx" =>
+    | "idx" | "idx11" | "idx12" | "idx13" | "idx14" =>
       let (is, m, s, t) := GoRes.Driver.Idx.run st.idx args impl
-      ({ st with idx := is }, m ++ "\t" ++ s ++ "\t" ++ t)
+      -- each property judges only the operations it is about (the model is compared on all of them)
+      let op := (fields.headD "")
+      let keep := match dom with
+        | "idx11" => ["create", "update", "delete", "value", "exists", "createbad"].contains op
+        | "idx12" => ["init", "rebuild", "query"].contains op
+        | "idx13" => ["query"].contains op
+        | "idx14" => ["flush"].contains op
+        | _ => true
+      ({ st with idx := is }, m ++ "\t" ++ (if keep then s else "-") ++ "\t" ++ t)
     | "codec" => let (m, s, t) := GoRes.Driver.Codec.run args; (st, m ++ "\t" ++ s ++ "\t" ++ t)
     | "reqload" => let (m, s, t) := GoRes.Driver.ReqLoad.run args; (st, m ++ "\t" ++ s ++ "\t" ++ t)
     | "sendreq" => let (m, s, t) := GoRes.Driver.SendReq.run args; (st, m ++ "\t" ++ s ++ "\t" ++ t)
